@@ -502,6 +502,7 @@ Lemma lstep_slot_ok est prof warn pol oc st o :
 Proof.
   intros H. destruct o as [s | e cs n i | e cs n i]; cbn [lstep].
   - destruct st as [|s']; cbn [fst]; [|exact H].
+    destruct (setup_pre prof s =? 0); [|exact I].
     destruct (validate_setup_channel warn pol s) eqn:E; cbn [fst slot_ok]; auto.
   - destruct st; cbn [fst]; exact H.
   - destruct st; cbn [fst]; exact H.
